@@ -588,7 +588,7 @@ pub fn run(ctx: &Ctx, replay: Option<&J>) -> i32 {
             v
         };
         for &d in if thorough { &[5usize, 16, 31, 32, 33, 34, 40, 63, 64, 65, 100, 129][..] } else { &[33usize, 65][..] } {
-            let l = vec![nest(2.0, d), nest(1.0, d), nest(3.0, d), nest(1.0, d), nest(2.0, d.saturating_sub(1))];
+            let l = vec![nest(2.0, d), nest(1.0, d), nest(3.0, d), nest(1.0, d), nest(0.0, d)];
             ladder.push((rv_src(&RV::List(l.clone())), l));
         }
         par_for_ctx(ctx, ladder.len(), |i| {
